@@ -22,6 +22,8 @@ type Thread struct {
 	Blocked bool
 	Done    bool
 	Started bool
+	// NoPost: no yield after a release while this thread runs its current operation (see PostYield)
+	NoPost bool
 }
 
 var (
@@ -32,6 +34,11 @@ var (
 	// NoPreempt > 0: lock acquisitions do not yield. Only used around reads that can never block
 	// (file locks are innermost, and a parked goroutine never holds one).
 	NoPreempt int
+	// PostYield: also yield right after every release, so that work a method does on shared data after it
+	// has given up the lock can be interleaved with other goroutines. The harness switches it off per thread
+	// (Thread.NoPost) for the calls whose result is a FileInfo or a listing: those are live views of the
+	// file objects, and reading them is not part of the call.
+	PostYield = true
 )
 
 // Reset prepares a new controlled execution.
@@ -106,6 +113,9 @@ func Unlock(site, class, mode string, unlock func()) {
 	Log = append(Log, Event{Thread: Cur.ID, Kind: "rel", Site: site, Class: class, Mode: mode})
 	unlock() // a release of an unheld lock is a Go runtime fatal error: the process dies here
 	Unblock()
+	if PostYield && !Cur.NoPost {
+		Yield(Event{Kind: "post", Site: site, Class: class, Mode: mode})
+	}
 }
 
 // Unblock is set by the scheduler: every blocked thread may retry after a release.
